@@ -10,7 +10,7 @@ package c04
 //	cr a            evm.create: collision check, CreateAccount(a), SetNonce(a,1)
 //	lg ar sr aa as  AddLog / AddRefund / SubRefund / AddAddressToAccessList / AddSlotToAccessList
 //	to a            GetBalance(a) + bank balance of a on the current (cache) ctx  -> one "view" pair
-//	rs a k          GetState(a,k)
+//	rs a k          GetState(a,k) and GetCommittedState(a,k) -> one "view" entry tagged -(100a+k)
 //	fr body rev     Snapshot; body; RevertToSnapshot if rev
 //	pc sends fails  Snapshot; CacheCtxForPrecompile; SavePrecompileCalledJournalChange; CommitCacheCtx;
 //	                bank SendCoins(unibi) on the returned cache ctx for every send; RevertToSnapshot if
@@ -276,7 +276,9 @@ func (r *runner) exec(ops []op) {
 			bk := r.deps.App.BankKeeper.GetBalance(r.bankCtx(), eth.EthAddrToNibiruAddr(a), "unibi").Amount
 			r.obs.Views = append(r.obs.Views, [3]string{fmt.Sprint(o.A), w.String(), bk.String()})
 		case "rs":
-			db.GetState(a, hashOf(o.B))
+			v := db.GetState(a, hashOf(o.B))
+			c := db.GetCommittedState(a, hashOf(o.B))
+			r.obs.Views = append(r.obs.Views, [3]string{fmt.Sprint(-(o.A*100 + o.B)), v.Big().String(), c.Big().String()})
 		case "fr":
 			snap := db.Snapshot()
 			r.exec(o.Body)
@@ -412,7 +414,13 @@ func (g *gen) simple() op {
 	case 3:
 		return op{K: "sc", A: g.addr(), V: int64(r.Range(0, 2))}
 	case 4:
-		return op{K: "ss", A: g.addr(), B: int64(r.Range(1, nKey)), V: int64(r.Range(0, 3))}
+		// mostly the contract that has storage, few slots, few values: rewriting a slot to the value it
+		// had before (dirty == origin) must happen often
+		a := g.addr()
+		if r.Chance(3, 5) {
+			a = 4
+		}
+		return op{K: "ss", A: a, B: int64(r.Range(1, 2)), V: int64(r.Pick(2, 1, 3, 3))}
 	case 5:
 		return op{K: "sd", A: g.addr(), B: g.addr()}
 	case 6:
@@ -516,6 +524,9 @@ func openers() []c04Input {
 			fr(true, op{K: "sn", A: 1, V: 4}, pc(false, [3]int64{1, 2, 30}), op{K: "ss", A: 1, B: 3, V: 2}),
 			pc(false, [3]int64{1, 3, 10}), {K: "to", A: 1}, {K: "to", A: 3}, {K: "sn", A: 1, V: 6}},
 		many,
+		// a slot written, flushed by a precompile call, then written back to its committed value
+		{{K: "ss", A: 4, B: 1, V: 3}, pc(false), {K: "ss", A: 4, B: 1, V: 2}, {K: "rs", A: 4, B: 1}},
+		{{K: "rs", A: 4, B: 1}, fr(true, op{K: "ss", A: 4, B: 1, V: 3}, pc(false, [3]int64{1, 2, 1}), op{K: "rs", A: 4, B: 1}), {K: "rs", A: 4, B: 1}, {K: "ss", A: 4, B: 1, V: 0}},
 		{{K: "cr", A: 3}, {K: "ss", A: 3, B: 1, V: 1}, {K: "sc", A: 3, V: 2}, fr(true, pc(false, [3]int64{1, 3, 4}), op{K: "sd", A: 3, B: 1}), pc(false), {K: "to", A: 3}},
 	}
 	var out []c04Input
